@@ -1093,8 +1093,15 @@ fn cmd_image_alpha() {
         let r = panic::catch_unwind(|| Image::from_png_data(png.clone()).map(|_| ()).map_err(|e| e.to_string()));
         if r.is_err() && bad.len() < 6 { bad.push(format!("{{\"png_header\":\"{w} x {h}, bit depth {depth}, colour type {ctype}\",\"outcome\":\"PANIC\"}}")); }
     }
+    // raw buffers whose length equals width*height*4 (or width*height) only modulo 2^32: refused, never accepted and never a panic
+    for (w, h, len, gray) in [(0x8000_0001u32, 2u32, 8usize, false), (65536, 65536, 0, false), (0x4000_0000, 4, 0, false), (65536, 65536, 0, true), (0x8000_0001, 2, 2, true)] {
+        evaluated += 1;
+        let r = panic::catch_unwind(|| if gray { Image::from_gray_data(vec![0u8; len], w, h).map(|_| ()).map_err(|e| e.to_string()) } else { Image::from_rgba_data(vec![0u8; len], w, h).map(|_| ()).map_err(|e| e.to_string()) });
+        let ok = matches!(&r, Ok(Err(_)));
+        if !ok && bad.len() < 6 { bad.push(format!("{{\"raw_buffer\":\"{} bytes given as {w} x {h} {}\",\"outcome\":{}}}", len, if gray { "grey" } else { "RGBA" }, js(&format!("{:?}", r.map_err(|_| "PANIC"))))); } else if !ok { bad.push(String::new()); }
+    }
     let n = bad.len(); bad.retain(|b| !b.is_empty());
-    println!("{{\"cmd\":\"image-alpha\",\"bound\":\"RGBA buffers of width 1..17 x height 1..3 x 4 alpha patterns (opaque, two binary, graded) -> image XObject + SMask decoded with byte-aligned rows; 6 PNG headers with extreme dimensions / bit depths\",\"evaluated\":{},\"disagreement_count\":{},\"disagreements\":[{}]}}", evaluated, n, bad.join(","));
+    println!("{{\"cmd\":\"image-alpha\",\"bound\":\"RGBA buffers of width 1..17 x height 1..3 x 4 alpha patterns (opaque, two binary, graded) -> image XObject + SMask decoded with byte-aligned rows; 6 PNG headers with extreme dimensions / bit depths; 5 raw buffers whose size matches the dimensions only modulo 2^32\",\"evaluated\":{},\"disagreement_count\":{},\"disagreements\":[{}]}}", evaluated, n, bad.join(","));
 }
 
 // C12 Eb: synthetic TrueType fonts (400 glyphs; composites incl. nested ones and one using the font's last glyph; short and long
@@ -1404,21 +1411,41 @@ fn cmd_png_grid() {
 // C30 Eb: user-chosen resource names in drawing operators: draw_image(name) -> content stream -> parser -> same name
 fn cmd_opnames() {
     use oxidize_pdf::parser::content::{ContentOperation, ContentParser};
-    let names = ["Im1", "A_b-1.x", "A B", "A/B", "A(B", "A#B", "A%B", "\u{e9}"];
-    let mut wrong = 0u64; let mut ex: Vec<String> = vec![]; let mut plain_wrong = 0u64;
+    // ISO 32000-1 7.2.2 / 7.3.5: every byte that is not white space, a delimiter or '#' is a regular character and may be written
+    // raw in a name (bytes >= 0x80 included). Names made only of such bytes must be read back unchanged; names with white
+    // space, delimiters or '#' are the recorded finding KF-C30-opnames (operator names are written raw).
+    let names = ["Im1", "A_b-1.x", "A B", "A/B", "A(B", "A#B", "A%B", "\u{e9}", "Bild_\u{e4}", "\u{56fe}\u{50cf}", "\u{41b}\u{43e}\u{433}\u{43e}", "x\u{20ac}y", "a+b=c", "q'\"^~", "n\u{a0}b"];
+    let mut wrong = 0u64; let mut ex: Vec<String> = vec![]; let mut plain_wrong = 0u64; let mut evaluated = 0u64;
     for name in names {
-        let r = panic::catch_unwind(|| {
-            let mut page = oxidize_pdf::Page::a4();
-            { let g = page.graphics(); g.draw_image(name, 0.0, 0.0, 10.0, 10.0); }
-            let content = page_content_bytes(page)?;
-            let ops = ContentParser::parse(&content).ok()?;
-            Some(ops.into_iter().filter_map(|op| match op { ContentOperation::PaintXObject(n) => Some(n), _ => None }).collect::<Vec<_>>())
-        });
-        let ok = matches!(&r, Ok(Some(v)) if v.len() == 1 && v[0] == name);
-        let regular = name.bytes().all(|b| b.is_ascii_alphanumeric() || b == b'_' || b == b'-' || b == b'.');
-        if !ok { if regular { plain_wrong += 1; } else { wrong += 1; } if ex.len() < 4 { ex.push(format!("{{\"name\":{},\"read_back\":{}}}", js(name), js(&format!("{:?}", r.map_err(|_| "PANIC"))))); } }
+        let regular = name.bytes().all(|b| !matches!(b, 0 | 9 | 10 | 12 | 13 | 32 | b'(' | b')' | b'<' | b'>' | b'[' | b']' | b'{' | b'}' | b'/' | b'%' | b'#'));
+        for op in ["Do", "sh", "Tf"] {
+            evaluated += 1;
+            let r = panic::catch_unwind(|| {
+                let mut page = oxidize_pdf::Page::a4();
+                {
+                    let g = page.graphics();
+                    match op {
+                        "Do" => { g.draw_image(name, 0.0, 0.0, 10.0, 10.0); }
+                        "sh" => { g.paint_shading(name); }
+                        _ => { g.set_custom_font(name, 12.0); g.begin_text(); g.show_text("x").ok(); g.end_text(); }
+                    }
+                }
+                let content = page_content_bytes(page)?;
+                let ops = ContentParser::parse(&content).ok()?;
+                Some(ops.into_iter().filter_map(|o| match o {
+                    ContentOperation::PaintXObject(n) if op == "Do" => Some(n),
+                    ContentOperation::ShadingFill(n) if op == "sh" => Some(n),
+                    ContentOperation::SetFont(n, _) if op == "Tf" => Some(n),
+                    _ => None }).collect::<Vec<_>>())
+            });
+            let ok = matches!(&r, Ok(Some(v)) if !v.is_empty() && v.iter().all(|x| x == name));
+            if !ok {
+                if regular { plain_wrong += 1; } else { wrong += 1; }
+                if ex.len() < 6 && (regular || wrong <= 2) { ex.push(format!("{{\"name\":{},\"operator\":{},\"regular\":{},\"read_back\":{}}}", js(name), js(op), regular, js(&format!("{:?}", r.map_err(|_| "PANIC"))))); }
+            }
+        }
     }
-    println!("{{\"cmd\":\"opnames\",\"bound\":\"8 names incl. space, '/', '(', '#', '%', non-ASCII through GraphicsContext::draw_image\",\"evaluated\":{},\"disagreements\":{},\"irregular_wrong\":{},\"examples\":[{}]}}", names.len(), plain_wrong, wrong, ex.join(","));
+    println!("{{\"cmd\":\"opnames\",\"bound\":\"15 names (ASCII, Latin-1, CJK, Cyrillic, euro sign, NBSP, quotes; white space, '/', '(', '#', '%') x operators Do, sh, Tf through GraphicsContext -> content stream -> ContentParser\",\"evaluated\":{},\"disagreements\":{},\"irregular_wrong\":{},\"examples\":[{}]}}", evaluated, plain_wrong, wrong, ex.join(","));
 }
 
 // C09 Eb: object values through the REAL writer and the REAL reader. Every string / name of <= len symbols over a small
